@@ -481,6 +481,12 @@ def search(ctx, hints):
             cases.append((base, ["the cat", "a new dog sat", ""],
                           {"ngram_range": list(ng), "stop_words": stop, "lowercase": True, "min_df": 1,
                            "max_df": 1.0, "max_features": None, "binary": False}))
+    # long documents (257, 300 and 700 tokens): "all corpora" is not only short sentences
+    words = ["w%d" % i for i in range(23)]
+    longdocs = [" ".join(words[(7 * i + j) % 23] for i in range(m)) for j, m in enumerate((257, 300, 700, 256))]
+    for ng in ((1, 2), (2, 2), (2, 3), (1, 1)):
+        cases.append((longdocs + ["w1 w2"], ["w3 w4 w5"], {"ngram_range": list(ng), "stop_words": None, "lowercase": True,
+                                                          "min_df": 1, "max_df": 1.0, "max_features": None, "binary": False}))
     for t in range(ctx.pick(250, 4000)):
         cases.append((gen_corpus(rng, ctx.pick(5, 8)), gen_corpus(rng, 3), gen_options(rng)))
         if t % 6 == 4:
